@@ -10,10 +10,10 @@ PROP = {
                   "length over any sub-queries (C16_and_binds_tighter), to give + / - / unmarked members the documented meaning in both default modes (C16_occur_semantics, "
                   "C16_single_member), and default-occur resolution preserves meaning (C16_logical_ast_sem); the strict grammar (parse_to_ast and everything below, rewrite_ast, "
                   "set_field / set_default_field) is transliterated as a total fuelled parser parse_ref, and C16_print_parse proves, for every concrete query of the fragment "
-                  "{words, field:, quoted phrases with ~slop / * prefix, + -, AND / OR, parentheses} under every layout (whitespace runs, redundant parentheses, quote kind), "
-                  "parse_ref (print c) = Ok (norm_top c). Partial: (1) panic-freedom and termination of the nom-based Rust parser are TESTED (fuzz stream), not proved - and are "
+                  "{quoted phrases of either quote kind, + / - markers, AND / OR chains, implicit lists, parentheses to any depth} under every layout (whitespace runs of "
+                  "space/tab/CR/LF, redundant parentheses), parse_ref (print c) = Ok (norm_top c), including adequacy of the fuel. Partial: (1) panic-freedom and termination of the nom-based Rust parser are TESTED (fuzz stream), not proved - and are "
                   "violated on the unchanged tree: F12 (panic), F161 (stack overflow on deep nesting), F162 (endless loop of the lenient parser); (2) lenient = strict is tested "
-                  "only, the lenient grammar is not modelled, and it is violated (F13); (3) ranges, IN sets, exists, boosts, NOT, field groups and typed literals are covered by "
+                  "only, the lenient grammar is not modelled, and it is violated (F13); (3) bare words, field scoping, slop/prefix, ranges, IN sets, exists, boosts, NOT, field groups and typed literals are covered by "
                   "the tie (parse_ref vs parse_query on every generated and fuzzed string) and by the spec cases (norm_top / Count vs the documented meaning evaluated in Coq), "
                   "not by C16_print_parse; typed literals only for text, raw-string and u64 fields. Mixed implicit/explicit operator lists are outside the documented grammar: "
                   "the model reproduces the code, no semantic claim.",
